@@ -10,7 +10,7 @@ PID = "C14"
 def chain(seed, k, tier):
     rnd = random.Random(seed * 541 + k)
     mode = ["below", "above", "ties", "zero-rate", "pre202"][k % 5]
-    sched = dict(scen.LIVE)
+    sched = dict(scen.LIVE, OneWaySmall=20)
     if mode == "pre202":
         sched.update(V202=300, OneWaySmall=300)
     # PEG price decides whether the total stake is below or above 4500 PEG x 144 = 648,000 USD
@@ -36,6 +36,8 @@ def chain(seed, k, tier):
             txs.append({"t": "PEG", "amt": (100 if mode == "ties" else rnd.randint(1, 200)) * 10**8, "conv": "pXBT"})
         if i % 3 == 0:
             txs.append({"t": "PEG", "amt": 50 * 10**8, "conv": "pEUR"})
+        if i % 4 == 0:
+            txs.append({"t": "PEG", "amt": 20 * 10**8, "conv": "pDCR"})       # allowed before OneWaySmall only: see sched below
         s.entry(h, u, txs)
     h += 1
     s.grade(h, rates=rates); h += 1
@@ -54,7 +56,9 @@ def chain(seed, k, tier):
     s.transfer(200, users[3], "pXBT", [(users[4], 12345)], track=False)
     s.grade(287, rates=rates)
     if mode == "zero-rate":
-        s.grade(288, rates=dict(rates, pXBT=scen.RATES["pXBT"] * 3), spr_rates=dict(rates, pXBT=scen.RATES["pXBT"]))   # pXBT recorded as 0 at the payout height
+        # pEUR (a low ticker index) is recorded as 0 at the payout height (OPR outside the 25% band of the SPR);
+        # holders that own pEUR also own assets with a higher ticker index (pXBT, pDCR), which must still count
+        s.grade(288, rates=dict(rates, pEUR=3 * 10**8), spr_rates=dict(rates, pEUR=10**8))
     elif k % 3 == 0:
         pass                                                                                   # snapshot height without rates
     else:
